@@ -679,6 +679,53 @@ func (s *Sim) Project(node string) (*PNode, error) {
 	return p, nil
 }
 
+// ReadKeys lists the per-write records through the node's leader controller, as a client read would
+// (served only if the controller is in LEADER status). ok=false if the node does not serve.
+func (s *Sim) ReadKeys(node string) (idx []int, term int64, ok bool) {
+	n := s.nodes[node]
+	if !n.isUp() {
+		return nil, 0, false
+	}
+	lc, err := n.dir.GetLeader(Shard)
+	if err != nil || lc.Status() != proto.ServingStatus_LEADER {
+		return nil, 0, false
+	}
+	term = lc.Term()
+	ch := make(chan []string, 1)
+	go func() {
+		var keys []string
+		done := make(chan struct{})
+		lc.List(context.Background(), &proto.ListRequest{StartInclusive: "w/", EndExclusive: "w/~"},
+			concurrent.NewStreamOnce(func(k string) error { keys = append(keys, k); return nil },
+				func(err error) {
+					if err != nil {
+						keys = nil
+					}
+					close(done)
+				}))
+		<-done
+		ch <- keys
+	}()
+	select {
+	case keys := <-ch:
+		if keys == nil {
+			return []int{}, term, true
+		}
+		for _, k := range keys {
+			var i int
+			if _, err := fmt.Sscanf(k, "w/%d", &i); err == nil {
+				idx = append(idx, i)
+			}
+		}
+		if idx == nil {
+			idx = []int{}
+		}
+		return idx, term, true
+	case <-time.After(3 * time.Second):
+		return nil, 0, false
+	}
+}
+
 func (s *Sim) Names() []string { return s.names }
 
 func (p *PNode) JSON() string { b, _ := json.Marshal(p); return string(b) }
